@@ -146,6 +146,8 @@ def mock_table_stims(seed, tier, mc):
         if r['hmsg']:
             headers.append({'n': 'grpc-message', 'v': list(b'from headers')})
         frames = [[0] + list(struct.pack('>I', 2)) + [j, 7] for j in range(r['nmsg'])]
+        if len(out) % 3 == 1:      # a peer that is not tonic may send empty DATA frames anywhere: before, between and after the messages
+            frames = [c for f in frames for c in ([], f)] + [[]]
         has_tr = r['ts'] != 'absent'
         trailers = []
         if r['ts'] not in ('absent', 'nostatus'):
